@@ -47,10 +47,14 @@ _CLONE_NOTE = ("Trusted: Coq kernel, extraction + OCaml runner, Rust harness. Mo
 for _pid, _text, _also in [
     ("C02", "Theorem clone_exact (Coq): for every source described by the archive index, every prior output, every list of "
             "sound seed chunks, the library-level clone model ends without error, with an empty index and output = source; "
-            "model tied to CloneOutput::feed / ChunkIndex by trace-exact correspondence.", []),
+            "C02_clone_bytes_any_seeds: the same over raw bytes -- seeds and old output are arbitrary byte strings scanned "
+            "with the archive's chunker and hashed, the whole command yields exactly the source (assumption: no collision "
+            "of the truncated hash on the chunks looked at). Models tied to CloneOutput::feed / ChunkIndex by trace-exact "
+            "correspondence and to the clone_archive pipeline by the cbytes suite.", []),
     ("C03", "Theorems about the in-place path: planner (strip + DFS reorder_ops) and executor proved correct for every "
-            "current layout (every prior content), composed into clone_exact; the model's op list and I/O trace are compared "
-            "with the implementation op for op.", []),
+            "current layout (every prior content), composed into clone_exact; C03_inplace_bytes_exact: for every prior CONTENT "
+            "(bytes), scanned with the archive's chunker, re-ordered, completed and resized, the result is the source; the "
+            "model's op list and I/O trace are compared with the implementation op for op.", []),
     ("C05", "Theorems failed_write_not_ok (any injected failing/torn write makes the run fail) and rerun_completes "
             "(corollary of clone_exact for the arbitrary bytes a failed run leaves); fault injection at every write in the "
             "correspondence suite.", []),
@@ -60,10 +64,12 @@ for _pid, _text, _also in [
             "in-place occurrence, nothing beyond the source length; full write traces compared with the implementation.", []),
 ]:
     PROPS[_pid] = {
-        "theorems": {"C02": ["C02_clone_with_seeds", "C02_seeds_irrelevant", "C02_hash_keyed_index_refines_add",
+        "theorems": {"C02": ["C02_clone_with_seeds", "C02_seeds_irrelevant", "C02_clone_bytes_any_seeds", "C02_clone_bytes_any_archive",
+                             "C02_hash_keyed_index_refines_add",
                              "C02_hash_keyed_index_refines_remove", "C02_hash_keyed_index_refines_contains",
                              "C02_lookup_truncates_consistently"],
-                     "C03": ["C03_planner_executor_correct", "C03_inplace_exact", "C03_explicit_stack_planner_is_recursive_planner"],
+                     "C03": ["C03_planner_executor_correct", "C03_inplace_exact", "C03_inplace_bytes_exact",
+                             "C03_old_output_irrelevant_bytes", "C03_explicit_stack_planner_is_recursive_planner"],
                      "C05": ["C05_failed_write_not_ok", "C05_rerun_completes", "C05_output_file_reports_failed_write",
                              "C05_unflushed_would_lose_last_error"],
                      "C06": ["C06_fetch_exact", "C06_archive_fetch_exact"],
@@ -147,8 +153,8 @@ PROPS["C12"] = {
 }
 PROPS["C14"] = {
     "theorems": ["C14_refusal_leaves_output_clone", "C14_refusal_leaves_output_compress"],
-    "suites": ["clirefuse"], "needs_cli": True,
-    "rule": "the full matrix {clone, compress} x output {absent, regular file, block device too small / large enough (hook)} x "
+    "suites": ["clirefuse", "tryinit"], "needs_cli": True,
+    "rule": "which archives are refused at open is the reader model's decision (tryinit suite: hostile-but-checksummed, flipped, truncated headers, model vs Archive::try_init); the full matrix {clone, compress} x output {absent, regular file, block device too small / large enough (hook)} x "
             "{--force-create, --seed-output, neither} x archive {valid, invalid, pinned checksum mismatch, prefix pin, empty pin, "
             "matching pin}: exit status, content, existence before/after, extra files; exhaustive. non-trivial = every cell",
     "assumes": ["POSIX open(2) semantics for O_CREAT/O_EXCL/O_TRUNC", "the is_block_dev hook (cfg oll3_bita_verif) stands for a real device"],
